@@ -32,6 +32,39 @@ func storable(ctx *sql.Context, c colType, raw any) (v any, ok bool) {
 	return v, true
 }
 
+// apiCheck decides the property for one stored value at the API: the text form, and every
+// deviation (announced length, conversion back).
+func apiCheck(ctx *sql.Context, c colType, v any) (text []byte, vs []viol) {
+	add := func(id, format string, args ...any) { vs = append(vs, viol{id, fmt.Sprintf(format, args...)}) }
+	var err error
+	if p := guard(func() {
+		sv, e := c.typ.SQL(ctx, nil, v)
+		err = e
+		if e == nil {
+			text = sv.Raw()
+		}
+	}); p != nil {
+		add("", "%s: SQL(%s) panics: %v", c.ddl, show(v), p)
+		return nil, vs
+	}
+	if err != nil {
+		add("", "%s: SQL(%s) fails for a stored value: %v", c.ddl, show(v), err)
+		return nil, vs
+	}
+	if max := c.typ.MaxTextResponseByteLength(ctx); uint64(len(text)) > uint64(max) {
+		add(lengthFinding(c, text), "%s: text form %q of %s has %d bytes, the announced maximum is %d", c.ddl, text, show(v), len(text), max)
+	}
+	v2, err := c.back(ctx, text)
+	if err != nil {
+		add(roundTripFinding(c, v, text), "%s: text form %q of %s does not convert back: %v", c.ddl, text, show(v), err)
+		return text, vs
+	}
+	if same, err := c.same(ctx, v, v2); !same {
+		add(roundTripFinding(c, v, text), "%s: stored %s, text form %q, converted back %s (compare error: %v)", c.ddl, show(v), text, show(v2), err)
+	}
+	return text, vs
+}
+
 func TestC28(t *testing.T) {
 	st := stats.New("C28", "api")
 	defer st.Flush()
@@ -48,37 +81,14 @@ func TestC28(t *testing.T) {
 			return
 		}
 		st.Class("kind:" + c.kind)
-		var text []byte
-		var err error
-		if p := guard(func() {
-			sv, e := c.typ.SQL(ctx, nil, v)
-			err = e
-			if e == nil {
-				text = sv.Raw()
+		text, vs := apiCheck(ctx, c, v)
+		for _, x := range vs {
+			if x.id != "" && kf.Suppress(st, x.id) {
+				continue
 			}
-		}); p != nil {
-			rt.Fatalf("%s: SQL(%s) panics: %v", c.ddl, show(v), p)
+			rt.Fatalf("%s", x.msg)
 		}
-		if err != nil {
-			rt.Fatalf("%s: SQL(%s) fails for a stored value: %v", c.ddl, show(v), err)
-		}
-		if max := c.typ.MaxTextResponseByteLength(ctx); uint64(len(text)) > uint64(max) {
-			if !(lengthKnown(c, v, text) && kf.Suppress(st, lengthFinding(c, text))) {
-				rt.Fatalf("%s: text form %q of %s has %d bytes, the announced maximum is %d", c.ddl, text, show(v), len(text), max)
-			}
-		}
-		if id := roundTripFinding(c, v, text); id != "" && kf.Suppress(st, id) {
-			return
-		}
-		v2, err := c.back(ctx, text)
-		if err != nil {
-			rt.Fatalf("%s: text form %q of %s does not convert back: %v", c.ddl, text, show(v), err)
-		}
-		same, err := c.same(ctx, v, v2)
-		if !same {
-			rt.Fatalf("%s: stored %s, text form %q, converted back %s (compare error: %v)", c.ddl, show(v), text, show(v2), err)
-		}
-		if nonTrivial(text) {
+		if len(vs) == 0 && nonTrivial(text) {
 			st.NonTrivial(map[string]any{"type": c.ddl, "text": fmt.Sprintf("%.60q", text)}, c.ddl, string(text))
 		}
 	})
